@@ -54,7 +54,9 @@ def emit_item(t):
         for i, (n, ft) in enumerate(t.fields):
             if i: o.append("out.push(' ');")
             o.append(f"self.{fname(i, n)}.walk(out, caps);")
-        o.append("out.push(')'); } }")
+        o.append("out.push(')'); }")
+        offs = ", ".join(f"(&self.{fname(i, n)} as *const _ as *const u8 as usize) - base" for i, (n, ft) in enumerate(t.fields))
+        o.append(f"fn field_offsets(&self, base: usize) -> Option<Vec<usize>> {{ Some(vec![{offs}]) }} }}")
         if not t.sized:
             init = f"{t.name}Init"
             sized_fs = t.fields[:-1]
@@ -94,6 +96,15 @@ def emit_item(t):
                 body += f" out.push(' '); {bind(j, n)}.walk(out, caps);"
             body += " out.push('>');"
             o.append(f"{pat} => {{ {body} }}")
+        o.append("} }")
+        o.append("fn field_offsets(&self, base: usize) -> Option<Vec<usize>> {")
+        o.append("match self {" if t.sized else "match self.as_ref() {")
+        for i, (vn, k, fs) in enumerate(t.variants):
+            if k == "unit": pat = f"{pre}{vn}"
+            elif k == "tuple": pat = f"{pre}{vn}(" + ", ".join(bind(j, n) for j, (n, _) in enumerate(fs)) + ")"
+            else: pat = f"{pre}{vn} {{ " + ", ".join(n for n, _ in fs) + " }"
+            offs = ", ".join(f"({bind(j, n)} as *const _ as *const u8 as usize) - base" for j, (n, _) in enumerate(fs))
+            o.append(f"{pat} => Some(vec![{offs}]),")
         o.append("} } }")
         if not t.sized:
             arms = []
